@@ -173,8 +173,13 @@ func parseSignedData(data []byte) (*PKCS7, error) {
 	}
 	// Compound octet string
 	if compound.IsCompound {
-		if _, err = asn1.Unmarshal(compound.Bytes, &content); err != nil {
-			return nil, err
+		// a constructed OCTET STRING (BER): the content is the concatenation of its segments
+		for rest := compound.Bytes; len(rest) > 0; {
+			var part []byte
+			if rest, err = asn1.Unmarshal(rest, &part); err != nil {
+				return nil, err
+			}
+			content = append(content, part...)
 		}
 	} else {
 		// assuming this is tag 04
